@@ -426,3 +426,206 @@ Proof.
   - vm_compute. reflexivity.
   - vm_compute. reflexivity.
 Qed.
+
+(* ------------------------------------------------------------------ *)
+(* the WEIGHTED cluster update (longitudinal field): cluster a is flipped with probability w_a / 2 where w_a is
+   the product of the flip ratios (0 or 1) of the operators lying inside the cluster *)
+Definition clw_pr (wfn : op -> Q) (c : cfg) : list Q :=
+  if Nat.eqb (count_ops (snd c)) 0 then []
+  else match decompose (snd c) with
+       | Some (b, ncl) => map (fun w => w * (1 # 2)) (cluster_weights (snd c) b ncl wfn)
+       | None => []
+       end.
+
+Definition cluster_cfg_w (wfn : op -> Q) (c : cfg) : prog cfg :=
+  bind (cluster_update (1 # 2) (Some wfn) (snd c) (fst c))
+       (fun r => Ret (match r with Some (sl', st', _) => (st', sl') | None => c end)).
+
+Lemma cluster_cfg_w_is_gkernel wfn c (f : cfg -> Q) :
+  (Nat.eqb (count_ops (snd c)) 0 = false -> decompose (snd c) <> None) ->
+  expect (cluster_cfg_w wfn c) f == expect (gkernel_w cl_act (clw_pr wfn) c) f.
+Proof.
+  intros Hd. unfold cluster_cfg_w, cluster_update, gkernel_w, clw_pr.
+  destruct (Nat.eqb (count_ops (snd c)) 0) eqn:E0.
+  - cbn [draw_flips bind]. rewrite !expect_ret. unfold cl_act. rewrite E0. destruct c. reflexivity.
+  - destruct (decompose (snd c)) as [[b ncl]|] eqn:Ed; [|exfalso; now apply Hd].
+    rewrite expect_bind.
+    apply (expect_draw_flips_ext _ _ (fun a => expect (Ret (match a with Some (sl', st', _) => (st', sl') | None => c end)) f) f).
+    intros fl. unfold cl_act. rewrite E0, Ed.
+    destruct (apply_flips (snd c) (fst c) b fl) as [sl' st']. rewrite !expect_ret. reflexivity.
+Qed.
+
+Record cluster_ready_w (H : ham) (wfn : op -> Q) (xs : list cfg) : Prop := {
+  crw_valid : forall st sl, In (st, sl) xs -> Nat.eqb (count_ops sl) 0 = false ->
+     exists b ncl, decompose sl = Some (b, ncl)
+       /\ links_ok sl b = true /\ vars_in_range (length st) sl = true /\ wf st sl = true;
+  (* for every flip vector of non-zero probability: the result is in the space, has the same cluster
+     probabilities and the same product of matrix elements *)
+  crw_poss : forall c fl, In c xs -> possible (clw_pr wfn) c fl ->
+     In (cl_act c fl) xs /\ clw_pr wfn (cl_act c fl) = clw_pr wfn c
+     /\ weight_product H (snd (cl_act c fl)) == weight_product H (snd c)
+}.
+
+Section ClusterKernelW.
+  Variable H : ham.
+  Variable wfn : op -> Q.
+  Variable beta : Q.
+  Variable xs : list cfg.
+  Hypothesis Hnd : NoDup xs.
+  Hypothesis Hcr : cluster_ready_w H wfn xs.
+
+  Lemma cl_act_len_count c fl :
+    length (snd (cl_act c fl)) = length (snd c) /\ count_ops (snd (cl_act c fl)) = count_ops (snd c).
+  Proof.
+    destruct c as [st sl]. unfold cl_act. cbn [fst snd].
+    destruct (Nat.eqb (count_ops sl) 0); cbn [snd]; [auto|].
+    destruct (decompose sl) as [[b ncl]|]; cbn [snd]; [|auto].
+    destruct (apply_flips sl st b fl) as [sl' st'] eqn:Ea. cbn [snd].
+    assert (E1 : sl' = fst (apply_flips sl st b fl)) by now rewrite Ea.
+    rewrite E1, apply_flips_length, apply_flips_count. auto.
+  Qed.
+
+  Lemma cl_act_invol_w c fl : In c xs -> cl_act (cl_act c fl) fl = c.
+  Proof.
+    intros Hc. destruct c as [st sl]. unfold cl_act. cbn [fst snd].
+    destruct (Nat.eqb (count_ops sl) 0) eqn:E0; cbn [fst snd]; [now rewrite E0|].
+    destruct (crw_valid H wfn xs Hcr st sl Hc E0) as (b & ncl & Ed & Hl & Hv & Hwf). rewrite Ed.
+    pose proof (cluster_flip_involutive sl st b fl Hv Hl Hwf) as Hinv.
+    destruct (apply_flips sl st b fl) as [sl' st'] eqn:Ea. cbn [fst snd].
+    assert (E1 : sl' = fst (apply_flips sl st b fl)) by now rewrite Ea.
+    rewrite E1, apply_flips_count, E0, redecompose_same, Ed, <- E1, Hinv. reflexivity.
+  Qed.
+
+  Theorem cluster_kernel_w_stationary : wstat xs (W H beta) (cluster_cfg_w wfn).
+  Proof.
+    apply (wstat_ext_in xs (W H beta) (gkernel_w cl_act (clw_pr wfn))).
+    - intros [st sl] f Hc. symmetry. apply cluster_cfg_w_is_gkernel. cbn [snd fst]. intros E0.
+      destruct (crw_valid H wfn xs Hcr st sl Hc E0) as (b & ncl & Ed & _). congruence.
+    - apply (gkernel_w_stationary cfg_eqb cfg_eqb_ok cl_act (clw_pr wfn) (W H beta) xs Hnd).
+      + intros c fl Hc Hp. apply (crw_poss H wfn xs Hcr c fl Hc Hp).
+      + intros c fl Hc Hp. apply (crw_poss H wfn xs Hcr c fl Hc Hp).
+      + intros c fl Hc _. now apply cl_act_invol_w.
+      + intros c fl Hc Hp. destruct (crw_poss H wfn xs Hcr c fl Hc Hp) as (_ & _ & Hw).
+        destruct (cl_act_len_count c fl) as [El Ec]. unfold W, sse_weight. rewrite El, Ec, Hw. reflexivity.
+  Qed.
+End ClusterKernelW.
+
+Definition pipeline_cfg_w (wfn : op -> Q) (upd : cfg -> prog cfg) (c : cfg) : prog cfg :=
+  bind (upd c) (fun c1 => bind (cluster_cfg_w wfn c1) refresh_cfg).
+
+Record tspace_ok_w (H : ham) (wfn : op -> Q) (L nv : nat) (xs : list cfg) : Prop := {
+  tsw_space : space_ok H L xs;
+  tsw_nvars : forall c, In c xs -> length (fst c) = nv;
+  tsw_cluster : cluster_ready_w H wfn xs;
+  tsw_free : forall st sl v, In (st, sl) xs -> var_has_ops sl v = false -> In (toggle_var st v, sl) xs
+}.
+
+Theorem pipeline_w_stationary H wfn beta L nv xs (upd : cfg -> prog cfg) :
+  tspace_ok_w H wfn L nv xs -> wstat xs (W H beta) upd -> wstat xs (W H beta) (pipeline_cfg_w wfn upd).
+Proof.
+  intros Hts Hupd. unfold pipeline_cfg_w.
+  apply (wstat_comp xs (W H beta) upd (fun c1 => bind (cluster_cfg_w wfn c1) refresh_cfg)); [exact Hupd|].
+  apply (wstat_comp xs (W H beta) (cluster_cfg_w wfn) refresh_cfg).
+  - apply (cluster_kernel_w_stationary H wfn beta xs (sp_nodup H L xs (tsw_space H wfn L nv xs Hts)) (tsw_cluster H wfn L nv xs Hts)).
+  - apply (wstat_ext_in xs (W H beta) (refresh_sweep 0 nv)).
+    + intros c f Hc. rewrite refresh_cfg_is_sweep, (tsw_nvars H wfn L nv xs Hts c Hc). reflexivity.
+    + apply (refresh_sweep_stationary H beta xs (sp_nodup H L xs (tsw_space H wfn L nv xs Hts)) (tsw_free H wfn L nv xs Hts)).
+Qed.
+
+Theorem metropolis_timestep_w_stationary H wfn beta L nv xs :
+  0 < beta -> (0 < h_nbonds H)%nat -> tspace_ok_w H wfn L nv xs ->
+  wstat xs (W H beta) (pipeline_cfg_w wfn (update_cfg (met_update H beta))).
+Proof.
+  intros Hb Hk Hts. apply (pipeline_w_stationary H wfn beta L nv xs); [exact Hts|].
+  apply (metropolis_update_stationary H beta L xs Hb Hk (tsw_space H wfn L nv xs Hts)).
+Qed.
+
+(* QmcIsingGraph::timestep WITH a longitudinal field is this pipeline with the flip ratio long_wf *)
+Theorem ising_timestep_is_pipeline_w g beta st sl (f : cfg -> Q) :
+  has_long g = true -> wf st sl = true ->
+  (forall p r, In (p, r) (denote (met_update (ising_ham g) beta (length sl) st sl)) ->
+     Nat.eqb (count_ops (fst (fst r))) 0 = false -> decompose (fst (fst r)) <> None) ->
+  expect (ising_timestep g false beta (length sl) st sl) (obs_of f)
+  == expect (pipeline_cfg_w (long_wf g) (update_cfg (met_update (ising_ham g) beta)) (st, sl)) f.
+Proof.
+  intros Hh Hwf Hdec. unfold ising_timestep, ising_diag, ising_cluster, pipeline_cfg_w, update_cfg. rewrite Hh.
+  cbn [fst snd]. rewrite !expect_bind. unfold expect at 1 3. apply emass_ext_in. intros p [[sl1 n1] st1] Hin.
+  rewrite expect_ret. cbn [fst snd].
+  assert (Hst : st1 = st).
+  { unfold met_update in Hin.
+    destruct (diagonal_update_wf (ising_ham g) (fun L n st0 o => met_slot (ising_ham g) L n beta st0 o) (length sl) st sl
+                (fun L n => met_slot_spec (ising_ham g) L n beta) (le_n _) Hwf p sl1 n1 st1 Hin) as [_ E]. exact E. }
+  subst st1. unfold cluster_cfg_w. cbn [fst snd]. rewrite !expect_bind.
+  unfold expect at 1 3. apply emass_ext_in_w. intros q r Hr.
+  destruct r as [[[sl2 st2] ncl]|].
+  - right. rewrite expect_ret, expect_bind. unfold refresh_cfg. cbn [fst snd]. rewrite expect_bind.
+    apply expect_ext. intros st3. rewrite !expect_ret. reflexivity.
+  - left. destruct (cluster_update_none_only_if _ _ _ _ _ Hr) as [Hz|[E0 Ed]]; [exact Hz|].
+    exfalso. apply (Hdec p (sl1, n1, st) Hin E0 Ed).
+Qed.
+
+(* ---------------- deciding the weighted conditions on a concrete space ---------------- *)
+Definition q_eqb_s (a b : Q) : bool := Z.eqb (Qnum a) (Qnum b) && Pos.eqb (Qden a) (Qden b).
+Lemma q_eqb_s_ok a b : q_eqb_s a b = true <-> a = b.
+Proof.
+  unfold q_eqb_s. rewrite andb_true_iff, Z.eqb_eq, Pos.eqb_eq. destruct a, b; cbn.
+  split; [intros [-> ->]; reflexivity|intros E; inversion E; auto].
+Qed.
+
+Definition cluster_check_w (H : ham) (wfn : op -> Q) (xs : list cfg) : bool :=
+  forallb (fun c =>
+    (if Nat.eqb (count_ops (snd c)) 0 then true
+     else match decompose (snd c) with
+          | Some (b, _) => links_ok (snd c) b && vars_in_range (length (fst c)) (snd c) && wf (fst c) (snd c)
+          | None => false
+          end)
+    && forallb (fun fl =>
+         if Qeq_bool (pw (clw_pr wfn c) fl) 0 then true
+         else in_cfgs (cl_act c fl) xs
+              && list_beq q_eqb_s (clw_pr wfn (cl_act c fl)) (clw_pr wfn c)
+              && Qeq_bool (weight_product H (snd (cl_act c fl))) (weight_product H (snd c)))
+       (all_substates (length (clw_pr wfn c)))) xs.
+
+Theorem tspace_check_w_sound H wfn L nv xs :
+  space_ok H L xs -> cluster_check_w H wfn xs = true -> free_check nv xs = true -> tspace_ok_w H wfn L nv xs.
+Proof.
+  intros Hsp Hcc Hfc. unfold cluster_check_w in Hcc. unfold free_check in Hfc.
+  rewrite forallb_forall in Hcc, Hfc. constructor.
+  - exact Hsp.
+  - intros c Hc. specialize (Hfc c Hc). apply andb_true_iff in Hfc. now apply Nat.eqb_eq.
+  - constructor.
+    + intros st sl Hc E0. specialize (Hcc (st, sl) Hc). cbn [fst snd] in Hcc. rewrite E0 in Hcc.
+      apply andb_true_iff in Hcc. destruct Hcc as [Hv _].
+      destruct (decompose sl) as [[b ncl]|]; [|discriminate].
+      rewrite !andb_true_iff in Hv. destruct Hv as [[Hl Hr] Hw]. exists b, ncl. auto.
+    + intros c fl Hc [Hl Hp]. specialize (Hcc c Hc). apply andb_true_iff in Hcc. destruct Hcc as [_ Hall].
+      rewrite forallb_forall in Hall. specialize (Hall fl (all_substates_complete _ _ Hl)).
+      destruct (Qeq_bool (pw (clw_pr wfn c) fl) 0) eqn:Ez; [apply Qeq_bool_iff in Ez; contradiction|].
+      rewrite !andb_true_iff in Hall. destruct Hall as [[Hi He] Hw].
+      split; [now apply in_cfgs_ok|]. split; [now apply (list_beq_eq q_eqb_s q_eqb_s_ok)|now apply Qeq_bool_iff].
+  - intros st sl v Hc Hv. specialize (Hfc (st, sl) Hc). cbn [fst snd] in Hfc.
+    apply andb_true_iff in Hfc. destruct Hfc as [Hn Hall]. apply Nat.eqb_eq in Hn.
+    destruct (Nat.lt_ge_cases v nv) as [Hlt|Hge].
+    + rewrite forallb_forall in Hall. specialize (Hall v (proj2 (in_seq _ _ _) (conj (Nat.le_0_l _) Hlt))).
+      rewrite Hv in Hall. cbn [orb] in Hall. now apply in_cfgs_ok.
+    + rewrite toggle_beyond by lia. exact Hc.
+Qed.
+
+(* the example with a longitudinal field on spin 0: bond 2 has weights (0, 1) *)
+Definition ex_ham_h : ham := mkHam 3
+  (fun b => match b with O => [0; 1]%nat | 1%nat => [0%nat] | _ => [0%nat] end)
+  (fun b => match b with 1%nat => true | _ => false end)
+  (fun b i o => match b with
+     | O => if bools_eqb i o then (match i with [a; c] => if Bool.eqb a c then 0 else 2 | _ => 0 end) else 0
+     | 1%nat => 1
+     | _ => if bools_eqb i o then (match i with [true] => 1 | _ => 0 end) else 0
+     end).
+Definition ex_wfn (o : op) : Q := if Nat.leb 2 (o_bond o) then 0 else 1.
+
+Theorem ex_space_w_ok : tspace_ok_w ex_ham_h ex_wfn 2 2 (canon ex_ham_h (all_substates 2) 2).
+Proof.
+  apply tspace_check_w_sound.
+  - apply canon_space_ok.
+  - vm_compute. reflexivity.
+  - vm_compute. reflexivity.
+Qed.
